@@ -8,7 +8,7 @@ CONSTANTS
   P1Names = {"int", "uint", "eu", "cint", "pint", "pcint", "a2int", "fvi"}
   P2Names = {"int", "pint"}
   FnRetNames = {"int", "uint", "void", "S1"}
-  Devs = {"CondSameTypeNoConversion", "CompositeIsFirst", "UacKeepsWideEnum", "SizeofSeesBitfield", "ConvertKeepsCompatible"}
+  Devs = {"CondSameTypeNoConversion", "CompositeIsFirst", "UacKeepsWideEnum", "SizeofSeesBitfield", "ConvertKeepsCompatible", "ArrayQualOnArrayType", "DerefDecayedArrayDropsQual"}
   Emit = TRUE
 INVARIANTS Inv_Refines Inv_Reflexive Inv_Emit
 CHECK_DEADLOCK FALSE
